@@ -35,6 +35,7 @@ theorem switchMember_ok (P : Profile) (id : Ident) (b : Block) (sw : Switch) (m 
     (h : ∃ v, P.value sw.acc b = .ok v) : ResOk (switchMember P id b sw m) := by
   cases m
   case mode => simp only [switchMember]; split <;> first | exact resOk_none | exact resOk_of (map_ok _ h)
+  case state_sensor => simp only [switchMember]; split <;> first | exact resOk_none | exact resOk_ok _
   case modes => simp only [switchMember]; split <;> first | exact resOk_none | exact resOk_ok _
   all_goals simp only [switchMember]
   all_goals first
@@ -248,14 +249,13 @@ theorem Good.heaterReads {f : Facade} (g : Good f) (b : Block) (hb : b.length = 
   · obtain ⟨v, h⟩ := hv _ g.tgt.1; exact ⟨v, h, value_numeric _ _ _ _ g.tgt.2 h⟩
   · obtain ⟨v, h⟩ := hv _ g.real.1; exact ⟨v, h, value_numeric _ _ _ _ g.real.2 h⟩
 
-/-- side condition on the dynamic state while findings D5b / D5c stand: the member asked is not the watercare `__str__`
-on the one mode it cannot render, nor the threaded `get_reminder` after a reminder report -/
-def DynOk (f : Facade) (d : Dyn) (o : Obj) (m : Mem) : Prop :=
-  (o = .watercare → m = .str_ → ∃ s, wcStr d.mode = .ok s) ∧
-  (o = .reminders → f.ident.flavor = .async ∨ d.rems = none ∨ ∀ t, m ≠ .get_reminder t)
+/-- side condition on the dynamic state while finding D5b stands: the member asked is not the watercare `__str__` on the
+one mode it cannot render -/
+def DynOk (d : Dyn) (o : Obj) (m : Mem) : Prop :=
+  o = .watercare → m = .str_ → ∃ s, wcStr d.mode = .ok s
 
 theorem evalObj_ok (f : Facade) (g : Good f) (d : Dyn) (hb : d.block.length = blockSize) (o : Obj) (m : Mem)
-    (hd : DynOk f d o m) : ResOk (evalObj f d o m) := by
+    (hd : DynOk d o m) : ResOk (evalObj f d o m) := by
   have hv := fun it hh => held_value_ok g.facts it hh d.block hb
   have hsw : ∀ (l : List Switch), (∀ s ∈ l, Held f.P s.acc) → ∀ i : Nat,
       ResOk (match l[i]? with | some s => switchMember f.P f.ident d.block s m | none => none) := by
@@ -281,15 +281,18 @@ theorem evalObj_ok (f : Facade) (g : Good f) (d : Dyn) (hb : d.block.length = bl
   case watercare =>
     simp only [evalObj]
     by_cases hm : m = .str_
-    · exact watercareMember_ok _ _ _ (hd.1 rfl hm)
+    · exact watercareMember_ok _ _ _ (hd rfl hm)
     · exact watercareMember_ok_but_str _ _ _ hm
-  case reminders => exact remindersMember_ok _ _ _ (hd.2 rfl)
+  case reminders =>
+    simp only [evalObj]
+    split
+    · rename_i hfl; exact remindersMember_ok _ _ _ (Or.inl hfl)
+    · exact resOk_none
   case keypad => exact keypadMember_ok _ _
   case errorSensor => exact errorSensorMember_ok _ _ _
   case eco => exact switchMember_ok _ _ _ _ _ (hv _ g.eco)
   case ecoState => exact sensorMember_ok _ _ _ _ _ _ (hv _ g.eco)
   case pump i => exact hsw _ g.pumps i
-  case pumpState i => exact hss _ g.pumps i
   case blower i => exact hsw _ g.blowers i
   case blowerState i => exact hss _ g.blowers i
   case light i => exact hsw _ g.lights i
